@@ -319,3 +319,30 @@ Theorem graph_sums : forall rootname tids s q, wf_stream s = true -> NoDup tids 
   calls_at q (graph_build 0 rootname tids s) = count_path q (ref_entries [] s)
   /\ time_at q (graph_build 0 rootname tids s) = time_path q (ref_calls tids s) mod W64.
 Proof. intros. apply graph_sums_gen; assumption. Qed.
+
+(* ------------------------------------------------------------------------------------------ *)
+(* the code as found closed the open calls of a task that was switched out for good at the time of the last
+   scheduler event of ANY task (fix feda1db): task 100 runs main > f, is switched out at 1300 and never comes back,
+   task 101 is switched out and in again at 2000 / 2100.  f ran from 1100 to (at most) 1300. *)
+Definition wit_main : name := [109; 97; 105; 110].
+Definition wit_f : name := [102].
+Definition wit_last : stream :=
+  [(100, Ent wit_main 1000); (101, Ent wit_main 1050); (100, Ent wit_f 1100); (100, Ent s_sched 1300);
+   (101, Ent s_sched 2000); (101, Ext s_sched 2100); (101, Ext wit_main 2500)].
+Theorem graph_last_time_legacy_refuted :
+  wf_stream wit_last = true
+  /\ time_path [wit_main; wit_f] (ref_calls [100; 101] wit_last) = 200
+  /\ time_at [wit_main; wit_f] (graph_build 1 [112] [100; 101] wit_last) = 200
+  /\ time_at [wit_main; wit_f] (graph_build_legacy 1 [112] [100; 101] wit_last) = 1000.
+Proof. vm_compute. repeat split; reflexivity. Qed.
+
+(* the code as found ended the linux:schedule call of a task that is switched out when the data ends under the name
+   <30d42> (fix bc8d6cc): begin and end events of that thread are not named alike any more *)
+Definition wit_stuck : stream := [(100, Ent wit_main 1000); (100, Ent s_sched 1300)].
+Theorem chrome_close_sched_legacy_refuted :
+  wf_stream wit_stuck = true
+  /\ ok_chrome [(100, 100)] (chrome_stream wit_stuck) (chrome_events [(100, 100)] (chrome_stream wit_stuck)) = true
+  /\ map c_name (chrome_events [(100, 100)] (chrome_stream wit_stuck)) = [wit_main; s_sched; s_sched; wit_main]
+  /\ map c_name (chrome_events_legacy [(100, 100)] wit_stuck) = [wit_main; s_sched; [60; 51; 48; 100; 52; 50; 62]; wit_main]
+  /\ ok_chrome [(100, 100)] (chrome_stream wit_stuck) (chrome_events_legacy [(100, 100)] wit_stuck) = false.
+Proof. vm_compute. repeat split; reflexivity. Qed.
